@@ -15,6 +15,13 @@
          finalize_buffer, finalize_aligned_buffer compared with the recorded stream; then BOTH builders are reset (same
          variant) and reused: round B with every size shifted by <shift>, round C with the sizes of round A. The recorder
          starts every round from origin 0, so a reset that does not rewind the address range shows as a shape violation.
+     af <warm 0|1> <k> <reset variant> <ws> <id> <cl> <ba> <nn> <ns> <sl> <sstep> <sv> <nt>
+         default-emitter builder (after one warm-up build + reset when warm=1): the k-th page allocation from now on fails while the
+         scenario is built (reply fail: rc of the build, whether the allocation failure was reached); then the builder is reset and
+         the same scenario is built again without failures and compared, like a round of `sc`, with a fresh recording builder;
+         finally flatcc_builder_clear and the number of pages still allocated (live=)
+     al <align> <size>    create_struct and create_vector of <size> bytes with alignment <align> (up to 32768) through a recording emitter
+                          that does not read the data (the zero padding block is shorter than such paddings): shape of the emit calls
      big str <len>        one create_string of <len> bytes through a recording emitter that does not read the data
      big fill <len> <n>   up to n create_string of <len> bytes each until the builder refuses
      big vt <n>           up to n create_vtable of 65534 bytes each (clustered: back emits) until the builder refuses
@@ -26,7 +33,22 @@ static FILE *hx_out;
 #define printf(...) fprintf(hx_out, __VA_ARGS__)
 #include "hx.h"
 #include <stddef.h>
+/* the default emitter is included as source after builder.c so that its page allocator can be made to fail at the k-th
+   page allocation (`af` requests); emitter.c is therefore NOT linked separately */
+static long hx_live = 0, hx_allocs = 0, hx_fail_at = -1;
+static void *hx_page_alloc(size_t n) {
+    void *p;
+    if (hx_fail_at >= 0 && hx_allocs == hx_fail_at) { ++hx_allocs; return 0; }
+    ++hx_allocs;
+    p = malloc(n);
+    if (p) ++hx_live;
+    return p;
+}
+static void hx_page_free(void *p) { if (p) { --hx_live; free(p); } }
+#define FLATCC_EMITTER_ALLOC(n) hx_page_alloc(n)
+#define FLATCC_EMITTER_FREE(p) hx_page_free(p)
 #include "builder.c"
+#include "emitter.c"
 
 struct rec {
     long long start, end; long calls; char bad[200]; int deref; int accept;
@@ -232,6 +254,38 @@ int main(void) {
             rc = do_reset(&B, atoi(t[2]));
             printf("rc=%d start=%ld end=%ld size=%lu\n", rc, (long)flatcc_builder_get_buffer_start(&B), (long)flatcc_builder_get_buffer_end(&B),
                    (unsigned long)flatcc_builder_get_buffer_size(&B));
+            flatcc_builder_clear(&B); rec_free(&r);
+        } else if (n == 14 && !strcmp(t[0], "af")) {
+            struct par p; flatcc_builder_t Bd, Br; struct rec r; int warm = atoi(t[1]), rv = atoi(t[3]), rc, x; long k = atol(t[2]), before;
+            p.ws = atoi(t[4]); p.idf = atoi(t[5]); p.cl = atoi(t[6]); p.ba = atoi(t[7]); p.nn = atoi(t[8]); p.ns = atoi(t[9]);
+            p.sl = atoi(t[10]); p.sstep = atoi(t[11]); p.sv = atoi(t[12]); p.nt = atoi(t[13]);
+            flatcc_builder_init(&Bd);
+            if (warm) {   /* a small first build: one page in the pool, so that the big build below has to allocate */
+                struct par w = p; w.ns = 1; w.sl = 3; w.sstep = 0; w.sv = 5; w.nt = 0; w.nn = 0;
+                rc = build(&Bd, &w); x = do_reset(&Bd, rv); printf("warm rc=%d reset=%d | ", rc, x);
+            }
+            before = hx_allocs; hx_fail_at = hx_allocs + k;
+            rc = build(&Bd, &p);
+            printf("fail rc=%d reached=%d allocs=%ld", rc, hx_allocs > hx_fail_at, hx_allocs - before);
+            hx_fail_at = -1;
+            x = do_reset(&Bd, rv);
+            printf(" reset=%d | ", x);
+            rec_init(&r, 1);
+            flatcc_builder_custom_init(&Br, rec_emit, &r, 0, 0);
+            scenario_round(&Br, &r, &Bd, &p, "A", 0);
+            flatcc_builder_clear(&Bd); flatcc_builder_clear(&Br); rec_free(&r);
+            printf(" | live=%ld\n", hx_live);
+        } else if (n == 3 && !strcmp(t[0], "al")) {
+            flatcc_builder_t B; struct rec r; static char small[64]; long k = 0; uint16_t al = (uint16_t)atoi(t[1]); size_t sz = (size_t)atol(t[2]);
+            rec_init(&r, 0);
+            flatcc_builder_custom_init(&B, rec_emit, &r, 0, 0);
+            flatcc_builder_start_buffer(&B, 0, 0, 0);
+            if (sz > sizeof(small)) sz = sizeof(small);
+            if (flatcc_builder_create_struct(&B, small, sz, al)) ++k;
+            if (flatcc_builder_create_vector(&B, small, sz, 1, al, 0xffffffffu)) ++k;
+            if (flatcc_builder_create_struct(&B, small, sz ? sz - 1 : 1, al)) ++k;
+            printf("calls=%ld accepted=%ld shape=%s start=%lld end=%lld bstart=%ld bend=%ld\n", r.calls, k, r.bad[0] ? r.bad : "ok", r.start, r.end,
+                   (long)B.emit_start, (long)B.emit_end);
             flatcc_builder_clear(&B); rec_free(&r);
         } else if (n >= 3 && !strcmp(t[0], "big")) {
             flatcc_builder_t B; struct rec r; static char small[16]; long k = 0, cnt = 1; long long a = parse_ll(t[2]);
